@@ -54,6 +54,11 @@ func NewLocalImporter(opts LocalImporterOptions) *LocalImporter {
 	if opts.Extensions == nil {
 		opts.Extensions = defaultExtensions
 	}
+	// The import root is the directory the name denotes now, not wherever a
+	// later change of the working directory would make it point to
+	if abs, err := filepath.Abs(opts.SourceDir); err == nil && opts.SourceDir != "" {
+		opts.SourceDir = abs
+	}
 	return &LocalImporter{
 		globalNames: opts.GlobalNames,
 		codeCache:   map[string]*compiler.Code{},
